@@ -21,6 +21,9 @@ def OffOk (pm : PeerMap) (key : Key) (n o1 o2 : Nat) : Prop :=
   | .small _ => True
   | .large l _ => (without l key).length ≤ n ∨ offsetsOk (without l key).length n o1 o2
 
+instance (pm : PeerMap) (key : Key) (n o1 o2 : Nat) : Decidable (OffOk pm key n o1 o2) := by
+  unfold OffOk; split <;> infer_instance
+
 /-- what C02 demands of a returned peer list w.r.t. the candidate list -/
 structure PeersOk (peers cand : List Key) (n : Nat) : Prop where
   nodup : peers.Nodup
@@ -228,7 +231,7 @@ theorem numSeeders_filter_split (l : Entries) (q : Key × Peer → Bool) :
   | nil => rfl
   | cons e t ih =>
     simp only [numSeeders] at ih ⊢
-    by_cases hq : q e <;> simp [List.filter_cons, hq, List.countP_cons] <;> omega
+    by_cases hq : q e <;> simp [hq, List.countP_cons] <;> omega
 
 theorem retainLarge_spec (now : Nat) (l : Entries) :
     ∀ ns, numSeeders l ≤ ns →
@@ -242,18 +245,18 @@ theorem retainLarge_spec (now : Nat) (l : Entries) :
     simp only [numSeeders, List.countP_cons] at hns
     by_cases hv : isValid now p
     · have := ih ns (by simp only [numSeeders]; omega)
-      simp [retainLarge, hv, this, validE, bind, Except.bind, pure, Except.pure, List.filter_cons]
+      simp [retainLarge, hv, this, validE, bind, Except.bind, pure, Except.pure]
     · by_cases hs : p.seeder
       · simp only [hs, ↓reduceIte] at hns
         have := ih (ns - 1) (by simp only [numSeeders]; omega)
         simp only [retainLarge, hv, Bool.false_eq_true, ↓reduceIte, hs, csub_ok (by omega : 1 ≤ ns),
           bind, Except.bind, this]
-        simp [validE, hv, List.filter_cons, numSeeders, List.countP_cons, hs]
+        simp [validE, hv, numSeeders, hs]
         omega
       · have := ih ns (by simp only [numSeeders]; simp only [hs] at hns; omega)
         simp only [retainLarge, hv, Bool.false_eq_true, ↓reduceIte, hs, bind, Except.bind, pure,
           Except.pure, this]
-        simp [validE, hv, List.filter_cons, numSeeders, List.countP_cons, hs]
+        simp [validE, hv, numSeeders, hs]
 
 theorem keysOf_filter_sublist (l : Entries) (q : Key × Peer → Bool) :
     (keysOf (l.filter q)).Sublist (keysOf l) :=
